@@ -13,13 +13,14 @@ pub fn campaign(run: &mut Run, target: &str, total_runs: u64) {
     let t0 = std::time::Instant::now();
     let root = mv_engine::verif_root();
     let fuzz_dir = root.join("fuzz");
-    let build = Command::new("cargo")
-        .args(["+nightly", "fuzz", "build", "--fuzz-dir"])
-        .arg(&fuzz_dir)
-        .arg(target)
-        .env("CARGO_NET_OFFLINE", "true")
-        .current_dir(&fuzz_dir)
-        .output();
+    let build_with = |extra: &[&str]| {
+        Command::new("cargo").args(["+nightly", "fuzz", "build", "--fuzz-dir"]).arg(&fuzz_dir).args(extra).arg(target).env("CARGO_NET_OFFLINE", "true").current_dir(&fuzz_dir).output()
+    };
+    // same fallback as ./run: without the verif-hooks feature when only the hook fails to compile
+    let build = match build_with(if cfg!(feature = "hooks") { &[] } else { &["--no-default-features"] }) {
+        Ok(o) if !o.status.success() && cfg!(feature = "hooks") => build_with(&["--no-default-features"]),
+        other => other,
+    };
     match build {
         Ok(o) if o.status.success() => {}
         Ok(o) => {
